@@ -67,6 +67,10 @@ CLAIMED = {
    text='Coq theorems: MANDy post-processing contracts the pseudoinverse train with y (with C05: matricised result = (y Psi^+)^T); a solution of the normal equations never has a larger residual than any other coefficient vector (Pythagoras identity); ARR environments in closed form and the frame identity (fitted values linear in the updated core with the micro matrix as coefficients). mandy_cm/fm, mandy_kb and arr are tied to /repo by differential execution with svd / solve / lstsq / qr / rq answered from a tape; side check: MANDy against y pinv(Psi) on the dense transformed data matrix (under-, exactly-, over-determined), kernel-based fitted values, ARR residual monotone over 0-3 sweeps, ranks kept, guess and data unchanged, optimum at maximal ranks.',
    note='PARTIAL: the composed ARR monotonicity over whole sweeps (QR/RQ re-orthonormalisation keeps the iterate representable; order on the scalars), rank preservation and guess-unchanged are decided by correspondence + side check. Guesses with an over-parameterised bond (r_i > n_i r_{i+1}) are outside "keeps the ranks". Trusted: Coq kernel, harness tapes, lstsq/SVD/QR as oracles.',
    technique='Coq proofs (least-squares Pythagoras, environment closed forms, frame identity) + oracle-tape correspondence + dense pinv side check', design='6 C16'),
+ 'C17': dict(
+   text='Coq theorems (every order, all spatial dimensions and ranks): the matrix handed to the eigen-solver is sum_b <X_left[:,a], Y_left[:,b]> (x_last y_last^T)[a\',b], i.e. U^T Y V^T S^-1 of the unfolded snapshot tensors (with C05 for pinv); a train with its last core replaced has entries left part x new last core (exact modes Y V^T S^-1 W L^-1, projected modes U W). tdmd_exact/tdmd_standard are tied to /repo by differential execution with svd and eig answered from a tape (SVD inputs, reduced matrix, sorted eigenvalues, all mode cores compared); side check: eigenvalues against SVD-based matrix DMD with the same relative cut, order, modes as eigenvectors of Y X^+ resp. U w, inputs unchanged.',
+   note='eig/SVD are oracles; ortho flags may be switched off only for parts that are already orthonormal (their purpose) - otherwise pinv is not the pseudoinverse. Real data (the code transposes, it does not conjugate). Trusted: Coq kernel, harness tapes.',
+   technique='Coq proof (running core contraction = Gram matrix of the unfolded parts) + oracle-tape correspondence (svd, eig) + matrix-DMD side check', design='6 C17'),
 }
 NOT_YET = {}
 ALL = ['C%02d' % i for i in range(1, 21)]
